@@ -221,20 +221,20 @@ Section Obs.
     - split; [congruence | exact T].
     - simpl in T. symmetry. exact T.
   Qed.
-  Lemma obs_send : forall m arg, g_whop (s_table ss f m) = true ->
+  Lemma obs_send : forall m arg,
     send st f m arg = match s_table ss f m with [] => ([], RNoMethod) | cs => s_send (s_var ds f) arg cs end.
   Proof.
-    intros m arg G. destruct obs_record as (fl & H1 & H2 & H3 & H4). unfold send. rewrite H1.
+    intros m arg. destruct obs_record as (fl & H1 & H2 & H3 & H4). unfold send. rewrite H1.
     assert (L := obs_lookup fl m H1). destruct (lookup mid_eqb m (f_meths fl)) as [tbl |].
-    - destruct L as [Ln Lt]. rewrite Lt. rewrite send_order by exact G.
+    - destruct L as [Ln Lt]. rewrite Lt. rewrite send_order.
       rewrite (s_send_ext (inst_vars fl) (s_var ds f)) by (intros x; apply (obs_vars fl x H1)).
       destruct (s_table ss f m) eqn:E; [| reflexivity]. destruct tbl; [contradiction | discriminate].
     - rewrite L. reflexivity.
   Qed.
-  Lemma obs_bound : forall m, no_vanilla_body ss -> g_whop (s_table ss f m) = true ->
+  Lemma obs_bound : forall m, no_vanilla_body ss ->
     bound_send fixed st f m = match s_table ss f m with [] => ([], RNoMethod) | cs => s_send (s_var ds f) None cs end.
   Proof.
-    intros m NV G. destruct obs_record as (fl & H1 & H2 & H3 & H4). unfold bound_send. rewrite H1.
+    intros m NV. destruct obs_record as (fl & H1 & H2 & H3 & H4). unfold bound_send. rewrite H1.
     assert (L := obs_lookup fl m H1). destruct (lookup mid_eqb m (f_meths fl)) as [tbl |].
     - destruct L as [Ln Lt]. rewrite Lt.
       assert (V : vlast (s_table ss f m) = true).
@@ -243,7 +243,7 @@ Section Obs.
                 (match s_slot ss vanilla m with Some c => [c] | None => [] end) by reflexivity.
         apply vlast_app. intros c Hc. apply in_filter_map in Hc. destruct Hc as [y [Hy Hs]]. apply (NV y m c Hs).
         apply (defined_not_vanilla ds y (i_wfd _ _ _ I)). apply (prec_defined ds (i_wfd _ _ _ I) f y Hy). }
-      assert (B := bound_send_order (s_table ss f m) (inst_vars fl) G V). unfold bound_call in B. rewrite B.
+      assert (B := bound_send_order (s_table ss f m) (inst_vars fl) V). unfold bound_call in B. rewrite B.
       rewrite (s_send_ext (inst_vars fl) (s_var ds f)) by (intros x; apply (obs_vars fl x H1)).
       destruct (s_table ss f m) eqn:E; [| reflexivity]. destruct tbl; [contradiction | discriminate].
     - rewrite L. reflexivity.
@@ -273,13 +273,13 @@ Proof.
   intros h f H Hd. destruct (history_inv h H) as [_ [A I]]. destruct (obs_record _ _ A I f Hd) as (fl & H1 & _).
   exists fl. split; [exact H1 |]. split; [intros v; apply (obs_vars _ _ A I f Hd fl v H1) | intros k; apply (obs_keys _ _ A I f Hd fl k H1)].
 Qed.
-Theorem send_equal_spec : forall h f m arg, wf h = true -> defined (decls h) f = true -> g_whop (s_table (spec h) f m) = true ->
+Theorem send_equal_spec : forall h f m arg, wf h = true -> defined (decls h) f = true ->
   send (final h) f m arg = match s_table (spec h) f m with [] => ([], RNoMethod) | cs => s_send (s_var (decls h) f) arg cs end.
-Proof. intros h f m arg H Hd G. destruct (history_inv h H) as [_ [A I]]. apply (obs_send _ _ A I f Hd m arg G). Qed.
-Theorem bound_send_equal_spec : forall h f m, wf h = true -> defined (decls h) f = true -> g_whop (s_table (spec h) f m) = true ->
+Proof. intros h f m arg H Hd. destruct (history_inv h H) as [_ [A I]]. apply (obs_send _ _ A I f Hd m arg). Qed.
+Theorem bound_send_equal_spec : forall h f m, wf h = true -> defined (decls h) f = true ->
   bound_send fixed (final h) f m = match s_table (spec h) f m with [] => ([], RNoMethod) | cs => s_send (s_var (decls h) f) None cs end.
 Proof.
-  intros h f m H Hd G. destruct (history_inv h H) as [_ [A I]]. apply (obs_bound _ _ A I f Hd m); [| exact G].
+  intros h f m H Hd. destruct (history_inv h H) as [_ [A I]]. apply (obs_bound _ _ A I f Hd m).
   apply nvb_run. exact nvb_init.
 Qed.
 Theorem admissible_forms_accepted : forall h, wf h = true -> Forall (fun o => o = Ok) (snd (run fixed init h)).
